@@ -279,6 +279,13 @@ class Engine:
             if isinstance(n, _ast.AnnAssign) and isinstance(n.target, _ast.Attribute) and isinstance(n.target.value, _ast.Name) \
                     and n.target.value.id == "self":
                 out.setdefault(n.target.attr, _ast.unparse(n.annotation))
+        # un-annotated `self.f = <literal>`: the literal's type
+        lit = {int: "int", bool: "bool", float: "float", str: "str"}
+        for n in _ast.walk(fi):
+            if isinstance(n, _ast.Assign) and len(n.targets) == 1 and isinstance(n.targets[0], _ast.Attribute) \
+                    and isinstance(n.targets[0].value, _ast.Name) and n.targets[0].value.id == "self" \
+                    and isinstance(n.value, _ast.Constant) and type(n.value.value) in lit:
+                out.setdefault(n.targets[0].attr, lit[type(n.value.value)])
         return out
 
     # ---------------------------------------------------------------------------------------
